@@ -124,6 +124,15 @@ pub fn probe(opts: &Opts) -> i32 {
             } else {
                 line
             };
+            // C12 after recovery: every clock shard covers the timestamps recovered into it (2^64-1, the
+            // pin sentinel, is never folded in)
+            let line = {
+                let behind = snap.iter().find(|r| r.timestamp != u64::MAX && store.verif_clock_value(store.verif_clock_shard(&r.key)) < r.timestamp);
+                match behind {
+                    Some(r) => format!("{line} CLOCK-BEHIND key={} ts={} clock={}", hex(&r.key), r.timestamp, store.verif_clock_value(store.verif_clock_shard(&r.key))),
+                    None => line,
+                }
+            };
             // C05 after recovery: every data block is free or inside exactly one recovered record's extent
             let line = {
                 let format = feoxdb::storage::format::get_format(store.verif_format_version());
